@@ -116,6 +116,21 @@ Definition ex_S_td_first : ssolution :=
 Lemma ex_td :
   valid_td ex_R ex_Ptd ex_S_td = [] /\ replay_viol_td ex_R ex_Ptd ex_S_td_first = [RDistance 0 2; RStatDistance 0; RStatCost 0].
 Proof. split; vm_compute; reflexivity. Qed.
+(* finding C01-F5 (witness): shifting the departure by the slack read off the current schedule - which is what
+   try_advance_departure_time does, assuming that every arrival moves 1:1 with the departure - breaks a time window when the travel
+   time grows with the departure time.  Leg 0 -> 1 takes 35 s up to 48, 55 s from 68 on, one second more per second in between
+   (the data of corpus/C01/td_departure_advanced.json); the job at 1 is open [50, 115]. *)
+Definition ex_dur_f5 (f t dep : Z) : Z :=
+  if (f =? 0) && (t =? 1) then (if dep <=? 48 then 35 else if 68 <=? dep then 55 else 35 + (dep - 48)) else 0.
+Definition ex_tour_f5 (dep : Z) : list act :=
+  [mkAct (-1) 0 0 50 INF dzero dep dep; mkAct 1 1 12 50 115 dzero 0 0].
+Lemma ex_departure_shift_td :
+  time_feasible_td ex_dur_f5 (ex_tour_f5 50) = true                  (* departing at 50: arrival 87, slack 115 - 87 = 28 *)
+  /\ 50 + ex_dur_f5 0 1 50 = 87 /\ 87 + 28 = 115                      (* the arrival a 1:1 shift by 28 would give: just in time *)
+  /\ 78 + ex_dur_f5 0 1 78 = 133                                       (* the real arrival after the shift *)
+  /\ time_feasible_td ex_dur_f5 (ex_tour_f5 78) = false.
+Proof. repeat split; vm_compute; reflexivity. Qed.
+
 (* a departure between the timestamps: at 50 the duration of a 10-unit leg is 10 + 50/5 = 20 (linear), its distance still 10 (left) *)
 Lemma ex_td_interpolation :
   match provider_of ex_R with
